@@ -978,6 +978,10 @@ impl DiskIO {
         let block = metadata_block(&encoded)?;
         self.write_sectors_sync(FEOX_METADATA_BLOCK, &block)?;
         self.write_sectors_sync(FEOX_METADATA_BACKUP_BLOCK, &block)?;
+        // The signature must be durable before anything else is written: otherwise a
+        // crash can persist a later journal or record block without it, and the
+        // device (non-zero, no signature) is rejected on the next open.
+        self.flush()?;
         *metadata = next;
         Ok(())
     }
